@@ -40,6 +40,10 @@ def run(ctx):
     check_set(ctx, prog)
     check_share(ctx, prog)
     check_enum_range(ctx, prog)
+    # value-returning const members of the map / set classes build a new container (never hand out `*this` or an argument)
+    import C01
+    nf = C01.check_fresh(ctx, prog, classes=('asl::Set', 'asl::HashMap', 'asl::Map', 'asl::Dic', 'asl::HashDic'))
+    ctx.floor('R-SHARE value-returning map/set members', nf, 3)
     return __doc__.split('\n\n', 1)[1]
 
 
